@@ -1,11 +1,19 @@
 from vfw import Unit, Ob
 UNITS = []; OBS = []
-GEOMS = [(1, 16, 1, 'quick'), (1, 16, 3, 'quick'), (1, 16, 4, 'quick'), (1, 16, 2, 'thorough'), (1, 8, 4, 'thorough'), (1, 64, 3, 'thorough'), (1, 2, 1, 'thorough')]
+GEOMS = [(1, 16, 1, 'quick'), (1, 16, 3, 'quick'), (1, 16, 4, 'quick'), (1, 10, 4, 'quick'), (1, 20, 16, 'quick'), (1, 100, 4, 'thorough'), (1, 16, 2, 'thorough'), (1, 8, 4, 'thorough'), (1, 64, 3, 'thorough'), (1, 2, 1, 'thorough')]
 for sid, pc, ipc, tier in GEOMS:
     un = 'pool_s%d_c%d_i%d' % (sid, pc, ipc)
     UNITS.append(Unit(un, 'wrappers/pool.cpp', defs=['ARDUINOJSON_SLOT_ID_SIZE=%d' % sid, 'ARDUINOJSON_POOL_CAPACITY=%d' % pc, 'ARDUINOJSON_INITIAL_POOL_COUNT=%d' % ipc,
-                                                         'ARENA_N=3', 'ARENA_CHUNK=512', 'TABLE=%d' % (2 * (255 // pc + 1) + 8)]))
+                                                         'ARENA_N=3', 'ARENA_CHUNK=%d' % max(512, pc * 16 + 64), 'TABLE=%d' % (2 * (255 // pc + 1) + 8)]))
     OBS.append(Ob(['C19', 'C04', 'C05', 'C06'], 'alloc_' + un, un, 'harness/pool.c', 'h_pool_alloc', defs=['UNIT_H="%s.h"' % un], unwind=12, tier=tier, cap=300, hunwind=12, fs='none',
                   desc='MemoryPoolList::allocSlot inductive step (SLOT_ID_SIZE=%d, POOL_CAPACITY=%d, INITIAL_POOL_COUNT=%d): invariant re-established, id arithmetic, maxPools, clean failure when full or out of memory' % (sid, pc, ipc),
                   bound='every pool-table state satisfying the invariant x every allocator-failure subset of the step (3 calls)'))
 OBS.append(Ob(['C19', 'C06', 'C03'], 'strnode_len2', 'pool_s1_c16_i4', 'harness/pool.c', 'h_strnode', defs=['UNIT_H="pool_s1_c16_i4.h"'], unwind=4, cap=100, desc='StringNode::create: length cap before allocation, exact request size, no narrowing (STRING_LENGTH_SIZE=2)', bound='length symbolic over all of size_t'))
+PU = 'pool_s1_c16_i4'
+OBS += [
+ Ob(['C06', 'C05', 'C19'], 'strnode_resize', PU, 'harness/pool.c', 'h_strnode_resize', defs=['UNIT_H="%s.h"' % PU], unwind=4, cap=100, desc='StringNode::resize: success stores the new length; failure (length above maximum or allocator failure) releases the old node exactly once', bound='new length symbolic over all of size_t, old length 0..7, allocator may fail'),
+ Ob(['C19', 'C06'], 'widths', PU, 'harness/pool.c', 'h_widths', defs=['UNIT_H="%s.h"' % PU], unwind=2, cap=60, desc='reference counter width == slot id width', bound='configuration constant'),
+ Ob(['C05', 'C04', 'C06', 'C19'], 'pool_clear_inline', PU, 'harness/pool.c', 'h_pool_clear', defs=['UNIT_H="%s.h"' % PU, 'HEAPT=0'], unwind=6, cap=200, hunwind=12, desc='MemoryPoolList::clear from any valid inline-table state: empty, inline table, inline capacity, heap table released once', bound='every (count <= 3, capacity, free list) satisfying the invariant'),
+ Ob(['C05', 'C04', 'C06', 'C19'], 'pool_clear_heap', PU, 'harness/pool.c', 'h_pool_clear', defs=['UNIT_H="%s.h"' % PU, 'HEAPT=1'], unwind=6, cap=200, hunwind=12, desc='MemoryPoolList::clear from any valid heap-table state: empty, inline table, inline capacity, heap table released once', bound='every (count <= 3, capacity, free list) satisfying the invariant'),
+ Ob(['C04', 'C06'], 'pool_swap', PU, 'harness/pool.c', 'h_pool_swap', defs=['UNIT_H="%s.h"' % PU], unwind=8, cap=200, hunwind=12, desc='swap(MemoryPoolList, MemoryPoolList) on inline tables: counts, free lists and pool descriptors exchanged', bound='counts 0..2, all free-list heads'),
+]
